@@ -19,6 +19,7 @@ fn line_lens(text: &str) -> Vec<usize> {
 fn pseudo_file_lens(name: &str) -> Option<Vec<usize>> {
     use chialisp::compiler::compiler::DefaultCompilerOpts;
     use chialisp::compiler::comptypes::CompilerOpts;
+    let mut acc: Option<Vec<usize>> = None;
     for strict in [false, true] {
         let opts: Rc<dyn CompilerOpts> = Rc::new(DefaultCompilerOpts::new("*x*"));
         let opts = if strict {
@@ -30,15 +31,18 @@ fn pseudo_file_lens(name: &str) -> Option<Vec<usize>> {
         };
         if let Ok((_, content)) = opts.read_new_file("*x*".to_string(), name.to_string()) {
             let t = String::from_utf8_lossy(&content).to_string();
-            if strict || name != "*macros*" {
-                return Some(line_lens(&t));
-            }
-            // both variants of *macros*: take the longer bounds line by line
             let a = line_lens(&t);
-            return Some(a);
+            if name != "*macros*" {
+                return Some(a);
+            }
+            // *macros* has a strict and a non-strict text and the location does not say which: bound line by line by the longer one
+            acc = Some(match acc {
+                None => a,
+                Some(b) => (0..a.len().max(b.len())).map(|i| a.get(i).copied().unwrap_or(0).max(b.get(i).copied().unwrap_or(0))).collect(),
+            });
         }
     }
-    None
+    acc
 }
 
 pub fn op_frontend(job: &Value) -> Value {
